@@ -1,7 +1,7 @@
 (* Property C10: likelihood calls -- exact count, one batch per step, budget and support kept; return value of run(). *)
 From Coq Require Import List Arith.
 Import ListNotations.
-Require Import NV.Base NV.Shell2 NV.Shell2Inv NV.Shell2Run NV.Shell2Loop NV.Shell2LoopProofs.
+Require Import NV.Base NV.Shell2 NV.Shell2Inv NV.Shell2Run NV.Shell2Loop NV.Shell2LoopProofs NV.Shell2LoopEE.
 
 Section P.
 Variable contains : bid -> pid -> bool.
@@ -41,6 +41,18 @@ Proof. exact (loop_return contains in_cube lik blob n_batch). Qed.
 Theorem C10_branch : forall c it s, explored s = true -> iter_shape c s (i_events it) = true ->
   exists k r v, i_events it = [EvAddSamples (Some k) r v] /\ (forall j, first_below c s 0 (shells s) = Some j -> k = j).
 Proof. exact loop_branch. Qed.
+
+(* the loop with the stopping rule of the exploration phase (verdict of `f_live <= target` as an oracle bit per iteration):
+   an accepted history is an accepted history of run_call, so everything above applies to it; and an iteration that
+   starts in the exploration phase ends it exactly when its verdict is set *)
+Theorem C10_stop_refines : forall c first its ft fn s r, run_call_fl contains in_cube lik blob n_batch c first its ft fn s = Some r ->
+  run_call c first (map fst its) ft fn s = Some r.
+Proof. exact (call_fl_refines contains in_cube lik blob n_batch). Qed.
+Theorem C10_stop_rule : forall c it fl rest ft fn s r, run_loop_fl contains in_cube lik blob n_batch c ((it, fl) :: rest) ft fn s = Some r ->
+  explored s = false ->
+  exists s1, Shell2.run contains in_cube lik blob n_batch s (i_events it) = Some s1 /\ explored s1 = fl /\
+             run_loop_fl contains in_cube lik blob n_batch c rest ft fn s1 = Some r.
+Proof. exact (loop_fl_ee contains in_cube lik blob n_batch). Qed.
 End P.
 Print Assumptions C10_batch.
 Print Assumptions C10_counter.
@@ -48,3 +60,5 @@ Print Assumptions C10_count.
 Print Assumptions C10_budget.
 Print Assumptions C10_success.
 Print Assumptions C10_branch.
+Print Assumptions C10_stop_refines.
+Print Assumptions C10_stop_rule.
